@@ -377,4 +377,21 @@ func init() {
 			return jobs
 		},
 	})
+	register(&PropSpec{
+		ID: "C17", Level: "exploration",
+		Rule:        "eligibility: stores with 1..6 small data files (first-record timestamps placed 6 hours away from whole-day ages, gaps left by an earlier pass, head unflushed / flushed / empty after restart); HStore.GC is called with (start, end, no_gc_days, merge, pretend) tuples including negatives and out-of-range ids; monitors: before/after inventory (sha1) of the bucket directory and the file-system mutation hook log; oracle: accept/refuse and the resolved (begin,end) equal a reference resolution written from the documented rule, pretend or refused requests change nothing and start no pass, a real pass changes only data files inside [begin,end] plus at most one earlier file that never shrinks, never the head file, and every collected file has a later file whose first record is older than the age limit. single pass: an overlap detector on the gc.enter/gc.exit hooks; two requests back-to-back, concurrently, and with the first parked after its already-running check / inside its pass. distinct = request and pass signatures, schedule kinds",
+		Assumptions: []string{"timestamps are placed hours from the no_gc_days boundary, so the verdict does not depend on the wall clock", "record size at most half the data-file limit"},
+		Plan: func(tier string, seed uint64) []Job {
+			var jobs []Job
+			n, stores, tuples, scheds := 10, 6, 30, 4
+			if tier == "thorough" {
+				n, stores, tuples, scheds = 28, 70, 40, 70
+			}
+			for i := 0; i < n; i++ {
+				jobs = append(jobs, Job{Variant: "plain", Mode: "db.c17", Args: js(map[string]interface{}{"Stores": stores, "Tuples": tuples, "Schedules": scheds})})
+			}
+			jobs = append(jobs, Job{Variant: "race", Mode: "db.c17", Args: js(map[string]interface{}{"Stores": 2, "Tuples": 10, "Schedules": scheds * 2})})
+			return jobs
+		},
+	})
 }
